@@ -71,6 +71,79 @@ func ruleD1(c *Ctx) {
 				}
 			}
 			c.check(okByte, "D1", "digit-class", st.Pos(), "the byte accumulated into a group is exactly in '0'..'9' (exact byte set at the store)")
+			// (d) nothing else refuses a digit: between the digit-class test and the accumulating store the only
+			// conditions are the digit-count limit (a comparison with 3) and the value limit (a comparison with 255);
+			// any further condition (no digits after a leading 0, ...) rejects addresses the property accepts
+			var extra []string
+			nLimits := 0
+			isByteCond := func(v ssa.Value) bool {
+				bo, ok := v.(*ssa.BinOp)
+				if !ok {
+					return false
+				}
+				for _, opnd := range []ssa.Value{bo.X, bo.Y} {
+					if u, ok := opnd.(*ssa.UnOp); ok && u.Op == token.MUL {
+						if ia2, ok := u.X.(*ssa.IndexAddr); ok && ia2.X == ssa.Value(bp) {
+							return true
+						}
+					}
+				}
+				return false
+			}
+			// nearest dominating byte test: the region starts at its successor that dominates the store
+			var start *ssa.BasicBlock
+			for cur := b; cur != nil && start == nil; cur = cur.Idom() {
+				d := cur.Idom()
+				if d == nil {
+					break
+				}
+				if iff, ok := d.Instrs[len(d.Instrs)-1].(*ssa.If); ok && isByteCond(iff.Cond) {
+					start = cur
+				}
+			}
+			if start == nil {
+				extra = append(extra, "no digit-class test dominates the store")
+			} else {
+				// blocks on a path start ->* store block
+				canReach := map[*ssa.BasicBlock]bool{b: true}
+				for changed := true; changed; {
+					changed = false
+					for _, x := range fn.Blocks {
+						if canReach[x] || !start.Dominates(x) {
+							continue
+						}
+						for _, su := range x.Succs {
+							if canReach[su] && su != start {
+								canReach[x], changed = true, true
+							}
+						}
+					}
+				}
+				for _, x := range fn.Blocks {
+					if !canReach[x] || x == b {
+						continue
+					}
+					iff, ok := x.Instrs[len(x.Instrs)-1].(*ssa.If)
+					if !ok {
+						continue
+					}
+					bo, ok := iff.Cond.(*ssa.BinOp)
+					if !ok {
+						extra = append(extra, c.Prog.pos(iff.Cond.Pos()))
+						continue
+					}
+					k, isK := constIntOf(bo.Y)
+					if !isK {
+						k, isK = constIntOf(bo.X)
+					}
+					if isK && (k == 3 || k == 255) && !isByteCond(bo) {
+						nLimits++
+						continue
+					}
+					extra = append(extra, c.Prog.pos(iff.Cond.Pos()))
+				}
+			}
+			c.check(len(extra) == 0 && nLimits == 2, "D1", "only-two-limits", st.Pos(), fmt.Sprintf("between the digit test and the accumulating store there are exactly the two documented limits (digit count vs 3, value vs 255; found %d) and no other condition (others at: %v)", nLimits, extra))
 			// (c) pos <= 3
 			_, ph := env.rng(ia.Index, b)
 			c.check(ph.Cmp(bigOf(3)) <= 0, "D1", "groups<=4", st.Pos(), "at most four groups (group index range at the store)")
